@@ -46,11 +46,14 @@ def _strip_all_versions(v):
     return v
 
 
-def is_inow(v, obj=SELF):
-    """Row index is the `inow` parameter, `data.index.get_loc(date)`, or 0 when the date is 0."""
+def is_inow(v, obj=SELF, guard=None):
+    """Row index is the resolved `inow`: the parameter when it is not None, else `data.index.get_loc(date)`, or 0 when the date is 0.
+    The bare parameter is accepted only where it is known not to be None (a None index would address the whole array)."""
     v = _strip(v)
     if v == INOW:
-        return True
+        if guard is None:
+            return True
+        return sym.lit_holds(sym.sat(guard), ("isnone", INOW), False)
     if v[0] == "ite":
         c = canon(v[1])
         if c[0] == "isnone" and (c[1] == INOW or is_inow(_uncanon_hint(v[3]), obj)) and canon(v[3]) == c[1]:
@@ -69,10 +72,9 @@ def _inow_fallback(v):
     if v[0] == "ite":
         c = canon(v[1])
         z_date = canon(("cmp", "==", DATE, sym.ZERO))
-        z_now = None
-        if c == z_date or (c[0] == "zero"):
+        if c == z_date:
             return canon(v[2]) == canon(sym.ZERO) and _is_get_loc(v[3])
-        if c[0] == "not":
+        if c == ("not", z_date):
             return canon(v[3]) == canon(sym.ZERO) and _is_get_loc(v[2])
         return False
     return _is_get_loc(v)
@@ -230,7 +232,7 @@ def _rows_index(chk, pid, S, fi, host, R, K):
     if pid in ("C08",):
         for e, (ser, idx, val, aug) in stores:
             sn = series_name(ser)
-            ok = is_inow(idx)
+            ok = is_inow(idx, guard=e.guard)
             chk.ob("C08.R4", ok, fi.module, host, "row-index:%s" % sn, "history rows are written only at the current index", where=e.where,
                    expected="index inow / get_loc(date) / 0 on the first update", found=short(idx), sample={"series": sn, "index": short(idx)})
         for e, (ser, val) in fills:
@@ -269,7 +271,7 @@ def _rows_case(chk, pid, S, fi, host, R, K, st, gg):
             continue
         e, (ser, idx, val, aug) = cands[-1]
         val = sym.restrict(val, gg)
-        ok = aug is None and equal(val, fv) and is_inow(idx)
+        ok = aug is None and equal(val, fv) and is_inow(idx, guard=e.guard)
         chk.ob("C01.R4", ok, fi.module, host, "row:%s" % series, "the %s row must equal the end-of-update %s" % (series, field), where=e.where,
                expected=short(fv), found=short(val), sample={"series": series, "field": field, "stored": short(val)})
 
@@ -626,7 +628,7 @@ def _strategy_rows(chk, pid, S, fi, host, R, pairs):
     if pid in ("C08",):
         for e, (ser, idx, val, aug) in stores:
             sn = series_name(ser)
-            chk.ob("C08.R4", is_inow(idx), CORE, host, "row-index:%s" % sn, "history rows are written only at the current index", where=e.where,
+            chk.ob("C08.R4", is_inow(idx, guard=e.guard), CORE, host, "row-index:%s" % sn, "history rows are written only at the current index", where=e.where,
                    expected="index inow / get_loc(date) / 0 on the first update", found=short(idx), sample={"series": sn, "index": short(idx)})
             if aug is not None:
                 chk.ob("C08.R2", False, CORE, host, "non-idempotent-row:%s" % sn, "history rows are assigned, not accumulated, so that a repeated update is idempotent", where=e.where)
@@ -638,7 +640,7 @@ def _strategy_rows(chk, pid, S, fi, host, R, pairs):
         wf = S.writes(field, SELF)
         for e, (ser, idx, val, aug) in cands:
             # the row is written from the field's value at that point
-            ok = aug is None and equal(val, cur(e, SELF, field)) and is_inow(idx)
+            ok = aug is None and equal(val, cur(e, SELF, field)) and is_inow(idx, guard=e.guard)
             chk.ob("C01.R4", ok, CORE, host, "row:%s" % series, "the %s row must be written from the current %s" % (series, field), where=e.where,
                    expected=short(cur(e, SELF, field), 200), found=short(val, 200), sample={"series": series, "field": field})
         # every write of the field inside update is followed by a row store on the same paths
@@ -958,8 +960,10 @@ def outlay_rules(chk, pid):
     names = ["full outlay", "outlay", "fee", "bid/offer cost"]
     n = 0
     code_cases, ref_cases = S.return_cases(), ref.return_cases()
+    if pid == "C09":
+        code_cases, ref_cases = [], []
     pnone = ("isnone", ("param", "p"))
-    for pol in ((True,) if pid == "C05" else (True, False)):
+    for pol in (() if pid == "C09" else (True,) if pid == "C05" else (True, False)):
         gg = sym.sat([(pnone, pol)])
         cc = [sym.restrict(v, gg) for g, v in code_cases if _consistent(gg, g)]
         rr = [sym.restrict(v, gg) for g, v in ref_cases if _consistent(gg, g)]
@@ -969,7 +973,7 @@ def outlay_rules(chk, pid):
         v, rv = cc[0], rr[0]
         for i in range(4):
             n += 1
-            if pid in ("C02", "C05") and i in (0, 2):
+            if pid in ("C02",) and i in (0, 2):
                 # the fee formula is C07's; value conservation / sizing only need internal consistency: full = outlay + fee
                 if i == 0:
                     chk.ob("C07.R1", equal(v[1], ("+", v[2], v[3])), CORE, host, "outlay-consistent:%s" % ("market" if pol else "custom-price"),
@@ -979,12 +983,14 @@ def outlay_rules(chk, pid):
             chk.ob("C07.R1", ok, CORE, host, "outlay-component:%s:%s" % (names[i], "market" if pol else "custom-price"),
                    "each trade moves q x price x multiplier plus the half-spread (or custom-price difference) as outlay and commission(q, price x multiplier) as fee",
                    where=fi.where, expected=short(rv[1 + i], 200), found=short(v[1 + i], 200), sample={"component": names[i], "value": short(v[1 + i], 160)})
-    chk.need(n >= (4 if pid == "C05" else 8), "SecurityBase.outlay: could not align its return cases with the reference")
+    if pid != "C09":
+        chk.need(n >= (4 if pid == "C05" else 8), "SecurityBase.outlay: could not align its return cases with the reference")
     # purity (C05.R8 / C07.R6)
     ws = [e for e in S.events if e.kind in ("write", "store") or (e.kind == "call" and e.extra == "mutate")]
-    chk.ob("C07.R6", not ws, CORE, host, "outlay-pure", "probing the cost of a trade books nothing", where=fi.where, found="; ".join(repr(e)[:80] for e in ws[:3]))
+    if pid != "C09":
+      chk.ob("C07.R6", not ws, CORE, host, "outlay-pure", "probing the cost of a trade books nothing", where=fi.where, found="; ".join(repr(e)[:80] for e in ws[:3]))
     # commission resolves to the parent's commission function (C07.R5)
-    if pid in ("C07",):
+    if pid in ("C07", "C05", "C09"):
         C = chk.summary(CORE, "SecurityBase", "commission", host="SecurityBase")
         okc = False
         for g, v in C.return_cases():
@@ -1065,7 +1071,7 @@ def transact_rules(chk, pid):
             chk.ob("C03.R4", fl is not None and canon(fl) == canon(sym.FALSE), CORE, host, "adjust-flow:trade", "trade proceeds and fees are never a flow", where=a.where,
                    expected="flow=False", found=short(fl) if fl else "default (flow)", sample={"flow": short(fl) if fl else "default"})
     # position, accumulators and typestate on the trading path
-    a = adj[-1]
+    a = adj[0]
     for st, _ in S.exits:
         g0 = G(st)
         qf = sym.restrict(final_value(st, SELF, R.POSITION), g0)
@@ -1095,6 +1101,11 @@ def transact_rules(chk, pid):
                            found=short(ws[0].extra, 200) if ws else "no write")
     # guards (C10.R1 custom price, zero quantity no-op)
     pw = S.writes(R.POSITION, SELF)
+    if pid in ("C01", "C02", "C07", "C10"):
+        first_effect = min([w.seq for w in pw] + [w.seq for w in S.writes(R.NEEDUPDATE, SELF)] + [e.seq for e in adj] or [10 ** 9])
+        late = [r for r in S.raises if r.seq > first_effect and r.chain == (S.fn.qual,)]
+        chk.ob("C02.R1", not late, CORE, host, "no-partial-trade-on-error", "a refused trade changes nothing: every error is raised before the position, the flags or the parent's cash are touched",
+               where=late[0].where if late else fi.where, expected="raise before the first write", found="%d raise sites after the position changed" % len(late))
     if pid == "C10":
         raises = [e for e in S.raises if has_lit(e.guard, ("isnone", price), False) and has_lit(e.guard, fld(SELF, "_bidoffer_set"), False)]
         ok = bool(raises) and all(any(r.seq < w.seq for r in raises) for w in pw)
@@ -1461,6 +1472,15 @@ def accessor_rules(chk, pid):
             tree_ref = [e for e in S.calls("update") if e.recv is not None and e.recv[0] == "fld" and e.recv[2] == "root" and canon(e.recv[1]) == canon(SELF)
                         and any(p and a[0] == "fld" and a[2] == R.STALE for a, p in e.guard)]
             self_ref = [e for e in S.calls("update") if e.recv == SELF]
+            if pid in ("C03", "C07") and needs_tree and (ret_fields & {R.VALUE, R.WEIGHT, R.NOTIONAL}):
+                # a refresh at a lagging clock looks like a date change to the root: it resets the flow / fee accumulators
+                for t in tree_ref:
+                    a0 = t.args[0] if t.args else None
+                    root_now = a0 is not None and a0[0] == "fld" and a0[2] == "now" and a0[1][0] == "fld" and a0[1][2] == "root"
+                    self_now = a0 is not None and a0[0] == "fld" and a0[2] == "now" and canon(a0[1]) == canon(SELF)
+                    ok = root_now or (self_now and prog.is_subclass(cname, "StrategyBase"))
+                    chk.ob("C08.R3", ok, fi.module, host, "tree-refresh-date", "the refresh runs the root at the ROOT's clock: at a lagging clock it would count as a date change and reset the flow and fee accumulators",
+                           where=t.where, expected="root.update(root.now, ...)", found=short(a0) if a0 else "no date")
             if pid in ("C08", "C01") and needs_tree:
                 if pid == "C08" or (ret_fields & {R.VALUE, R.WEIGHT, R.NOTIONAL}) or (ret_series & {R.CASH, R.POSITIONS, R.VALUES, R.SVALUES}) or reads_accessors:
                     ok = bool(rets) and all(any(t.seq < r.seq and guard_subset([l for l in t.guard if not (l[0][0] == "fld" and l[0][2] == R.STALE)], r.guard) for t in tree_ref)
@@ -1834,8 +1854,10 @@ def refresh_before_trade(chk, pid):
             continue
         u = ups[0]
         a0 = u.args[0] if u.args else None
-        okd = a0 is not None and a0[0] == "fld" and a0[2] == "now" and a0[1][0] == "fld" and a0[1][2] in ("parent", "root")
-        chk.ob("C02.R5", okd, CORE, host, "refresh-to-tree-date", "the refresh brings the security to its parent's current date", where=u.where, found=short(a0) if a0 else "?")
+        okd = a0 is not None and a0[0] == "fld" and a0[2] == "now" and a0[1][0] == "fld" and a0[1][2] == "parent" and canon(a0[1][1]) == canon(SELF)
+        chk.ob("C02.R5", okd, CORE, host, "refresh-to-tree-date",
+               "before a trade the security is refreshed to its own PARENT's current date (the node that trades it; a copied sub-tree's root pointer may be stale)", where=u.where,
+               expected="self.update(self.parent.now)", found=short(a0) if a0 else "?")
         # the refresh must happen in both lagging scenarios: needupdate set, or the clock differs from the parent's
         need = fld(SELF, R.NEEDUPDATE)
         same = ("cmp", "==", fld(SELF, "now"), fld(fld(SELF, "parent"), "now"))
